@@ -207,6 +207,53 @@ class Family:
         divs = [(rows, v) for v in common.printed(out, 'DIVERGE')]
         return viols, divs
 
+    # ------------------------------------------------------------------ follow-up of divergences
+    def follow_up(self, divs, store='memory', limit=40):
+        """A divergence says the real engine went somewhere the model does not go, but no property clause
+        failed in that step.  What follows from there is not in any script (scripts are paths of the model's
+        graph), so the prefix up to the diverging step is replayed on the real engine and continued with a
+        fixed set of short probes; the monitors judge what the real engine does then.  Returns the
+        violations found (the probes' own divergences are expected and not counted)."""
+        def R(t, rs, **kw):
+            m = {'t': t, 'rs': rs, 'seqc': 'ok', 'pd': 'none', 'ost': 'none', 'bs': 'ok', 'cid': 'ok', 'st': 'ok', 'val': 'ok', 'app': 'ok',
+                 'gf': 'none', 'rn': -99, 'b': 0, 'e': 0, 'trid': '', 'rsf': 'none', 'hb': 30, 'dav': 'ok'}
+            m.update(kw)
+            return {'k': 'Incoming', 'm': m}
+        snd = {'k': 'Send', 'a': {'x': 'b1', 'dns': False, 'ref': False}}
+        probes = [[snd, {'k': 'Flush'}], [R('D', 0)], [R('D', 1)], [R('D', 0), R('D', 0)], [R('1', 0, trid='T1')],
+                  [{'k': 'Timeout', 'e': 'PeerTimeout'}, {'k': 'Timeout', 'e': 'PeerTimeout'}], [R('2', 0, b=1, e=0)],
+                  [R('D', 0, pd='Y', ost='ok'), R('D', 0, pd='Y', ost='ok'), R('D', 0)],
+                  [{'k': 'Disconnected'}, {'k': 'Connect'}, R('A', 0)], [R('5', 0)], [{'k': 'Timeout', 'e': 'LogoutTimeout'}, snd, {'k': 'Flush'}]]
+        seen = set()
+        scripts = []
+        for rows, d in divs:
+            line = int(d[1])
+            row = rows[line - 1]
+            start = line - 1
+            while start > 0 and rows[start]['ev'].get('k') != 'TraceReset':
+                start -= 1
+            pre = rows[line - 2]['post'] if line >= 2 else {}
+            ev = row['ev']
+            key = (rows[start].get('cfg', {}).get('role'), pre.get('st'), ev.get('k'), json.dumps(ev.get('m', ev.get('e', '')), sort_keys=True)[:200] if ev.get('k') != 'Incoming'
+                   else (ev['m'].get('t'), ev['m'].get('seq', 0) - pre.get('nIn', 0), ev['m'].get('cid'), ev['m'].get('bs'), ev['m'].get('st'), ev['m'].get('pd')))
+            if key in seen or len(seen) >= limit:
+                continue
+            seen.add(key)
+            prefix = [x['ev'] for x in rows[start + 1:line]]
+            for k, pr in enumerate(probes):
+                scripts.append({'id': 'followup/%d/%d' % (len(seen), k), 'cfg': rows[start].get('cfg'), 'steps': prefix + pr})
+        if not scripts:
+            return []
+        keep = self.scripts
+        self.scripts = scripts
+        try:
+            rows, viols, _ = self.replay_and_validate(store=store + '_fu' if False else store)
+        finally:
+            self.scripts = keep
+        self.ctx.notes.append('%d divergence point(s) followed up with %d probe scripts on the real engine: %d clause failure(s)' % (
+            len(seen), len(scripts), len(viols)))
+        return viols
+
     # ------------------------------------------------------------------ verdicts
     def judge(self, viols, divs):
         ctx = self.ctx
@@ -334,6 +381,8 @@ def standard_run(ctx, pid, family, props, confs, quick_budget, thorough_budget, 
         rows, viols, divs = fam.replay_and_validate(store=store)
         ctx.notes.append('R+V(%s) %.1fs' % (store, time.time() - t1))
         total_rows += len(rows)
+        if divs:
+            viols = viols + fam.follow_up(divs, store=store)
         fam.judge(viols, divs)
         pre = None
         for r in rows:
